@@ -23,6 +23,7 @@ func checkC17(p *Prog, c *Check) {
 	c17Filter(p, c)
 	c17Derivable(p, c)
 	c17Operators(p, c)
+	matchOperatorTable(p, c, "C17-R7")
 }
 
 func c17Typestate(p *Prog, c *Check) {
@@ -628,4 +629,76 @@ func c17Operators(p *Prog, c *Check) {
 		sort.Strings(got)
 		c.Result(strings.Join(got, ",") == strings.Join(consts, ","), rule, "cases:"+strings.TrimPrefix(spec, "."), p.Rel(fn.Pos()), shortFn(fn), "operator cases", "the operator switch handles {"+strings.Join(got, ",")+"} but the declared operators are {"+strings.Join(consts, ",")+"}", "cases == declared operators")
 	}
+}
+
+// matchOperatorTable: the value-level semantics of a predicate. Every successful return of
+// ValuePredicate.Match sits under exactly one operator case p.Op == K, and returns, for the unsigned
+// operators, big.Int.Cmp(SetBytes(value), p.IntArgs[0]) compared with 0 by the relation the
+// operator's name stands for (full 256-bit comparison, no narrowing), and for BytesEq
+// bytes.Equal(value, p.ByteArgs[0]).
+func matchOperatorTable(p *Prog, c *Check, rule string) {
+	fn, err := p.Func(ssPkg + ".ValuePredicate.Match")
+	if !c.Must(err) {
+		return
+	}
+	c.Analysed(shortFn(fn))
+	fi := p.Info(fn)
+	want := map[string]string{"UintLt": "<", "UintLte": "<=", "UintEq": "==", "UintGt": ">", "UintGte": ">=", "BytesEq": "bytes"}
+	byVal := map[string]string{}
+	for name := range want {
+		v, err := p.constValue(ssPkg, name)
+		if !c.Must(err) {
+			return
+		}
+		byVal[v] = name
+	}
+	recv, value := fi.T(fn.Params[0]), fi.T(fn.Params[1])
+	seen := map[string]bool{}
+	for _, r := range returnsOf(fn) {
+		if fi.errIsNil(r.Results[1], r, 0) != yes {
+			continue
+		}
+		// the operator case this return belongs to
+		op := ""
+		for _, a := range fi.FactsAt(r) {
+			if a.Op == "==" && ParsePat("$p.Op").Match(a.L, Binds{"p": recv}) && a.R.K == TConst {
+				op = byVal[a.R.s]
+			}
+		}
+		key := "Match:case:" + op
+		if op == "" {
+			c.Fail(rule, "Match:ret@"+retKey(fi, r), p.siteOf(r), shortFn(fn), "successful return of Match", "a match verdict is returned outside the operator cases")
+			continue
+		}
+		seen[op] = true
+		t := fi.T(r.Results[0])
+		b := Binds{"p": recv, "v": value}
+		ok := false
+		switch want[op] {
+		case "bytes":
+			ok = ParsePat("bytes.Equal($v, $p.ByteArgs[0])").Match(t, b) || ParsePat("bytes.Equal($p.ByteArgs[0], $v)").Match(t, b)
+		default:
+			if t.K == TBin && len(t.Sub) == 2 {
+				rel, l, rr := t.Name, t.Sub[0], t.Sub[1]
+				// normalise `0 REL' cmp` to `cmp REL 0`
+				if z, isC := intConst(l); isC && z == 0 {
+					l, rr = rr, l
+					rel = map[string]string{"<": ">", "<=": ">=", ">": "<", ">=": "<=", "==": "=="}[rel]
+				}
+				if z, isC := intConst(rr); isC && z == 0 && rel == want[op] {
+					ok = ParsePat("Cmp(SetBytes(_, $v), $p.IntArgs[0])").Match(l, b)
+				}
+			}
+		}
+		c.Result(ok, rule, key, p.siteOf(r), shortFn(fn), "verdict of operator "+op, "the verdict is not the full-width comparison the operator stands for ("+want[op]+"): "+t.s, "Cmp(SetBytes(value), IntArgs[0]) "+want[op]+" 0")
+	}
+	n := 0
+	for op := range want {
+		if seen[op] {
+			n++
+		} else {
+			c.Fail(rule, "Match:case:"+op, p.Rel(fn.Pos()), shortFn(fn), "operator "+op, "no successful return handles this operator")
+		}
+	}
+	c.Floor(rule, n, 6)
 }
